@@ -897,18 +897,20 @@ class SimulationParameters(JsonSerializable):
         errors_list = flatten_errors(conf_file_parser, result)
         if len(errors_list) != 0:
             first_error = errors_list[0]
+            # A parameter outside of any section has an empty section list
+            section = first_error[0][0] if first_error[0] else ''
             # The exception will only describe the error for the first
             # incorrect parameter.
             if first_error[2] is False:
                 msg = ("Error loading file {0}. Parameter '{1}' in section "
                        "'{2}' must be provided.")
                 raise Exception(
-                    msg.format(filename, first_error[1], first_error[0][0]))
+                    msg.format(filename, first_error[1], section))
 
             msg = ("Error loading file {0}. Parameter '{1}' in section "
                    "'{2}' is invalid. {3}")
             raise Exception(
-                msg.format(filename, first_error[1], first_error[0][0],
+                msg.format(filename, first_error[1], section,
                            str(first_error[2]).capitalize()))
         # xxxxxxxxxxxxxxxxxxxxxxxxxxxxxxxxxxxxxxxxxxxxxxxxxxxxxxxxxxxxxxxxx
 
